@@ -3,7 +3,7 @@
    Model: Model/Visitor.v (pydoctor/visitor.py), Model/BuilderStack.v (astbuilder push/pop).
    Contract: Spec/Walk.v. *)
 From Coq Require Import ZArith NArith List Bool.
-From PydoctorVerif Require Import Base.Sexp Model.Visitor Model.BuilderStack Spec.Walk Proofs.VisitorProofs.
+From PydoctorVerif Require Import Base.Sexp Model.Visitor Model.BuilderStack Spec.Walk Proofs.VisitorProofs Gen.SkipSites.
 Import ListNotations.
 
 (* What each participant (main visitor = 0, or any extension) sees of walkabout() is exactly a
@@ -53,6 +53,14 @@ Theorem C19_stack_empty :
     (forall n, pushes n = isdef n && main_departs prune n) -> (forall n, pops n = isdef n) ->
     stack_run pushes pops (filter (who_is main_id) (fst (walkabout exts prune t))) st = Some st.
 Proof. exact builder_stack_restored. Qed.
+
+(* The push / pop / raise-pruning sites of astbuilder.ModuleVistor AS THEY ARE IN /repo NOW (Gen/SkipSites.v is
+   regenerated on every run): no visit_* method raises SkipNode/SkipDeparture after it has pushed a scope, visit_*
+   methods never pop, and every depart_* method that touches the stack only pops.  Together with C19_stack_empty
+   (whose hypothesis `pushes n = isdef n && main_departs prune n` these site rules support) a SkipNode placed after a
+   push breaks this obligation. *)
+Lemma C19_skip_sites_checked : forallb site_ok skip_sites = true.
+Proof. vm_compute. reflexivity. Qed.
 
 (* The walkabout() of the pinned commit (before the fix: commit) violated the projection property:
    a BEFORE extension enters node 2 and never leaves it when main raises SkipSiblings there. *)
